@@ -763,3 +763,9 @@ M("C22", "drive column written at a position counted over addressed atoms only o
 M("C03", "twin: filtered ids built through an explicit list()", "twin", [(PA, "    qubit_ids_filtered = [qid for qid in qubit_ids if qid in locals_a_d_p]", "    present = locals_a_d_p\n    qubit_ids_filtered = [qid for qid in list(qubit_ids) if qid in present]")])
 M("C23", "configured interaction matrix ignored", "kill", [(PA, "        if config.interaction_matrix is not None:\n            assert len(config.interaction_matrix) == self.qubit_count", "        if config.interaction_matrix is None:\n            assert len(config.interaction_matrix) == self.qubit_count")], "INTERACT")
 M("C23", "configured interaction matrix stored without the size test", "kill", [(PA, "            assert len(config.interaction_matrix) == self.qubit_count, (\n                \"The number of qubits in the register should be the same as the size of \"\n                \"the interaction matrix\"\n            )\n", "")], "INTERACT")
+M("C14", "emu-sv own-times membership by bisection on one neighbour", "kill",
+  [(SVI, "        is_observable_eval_time = (\n            times is not None\n            and self._config.is_time_in_evaluation_times(t, times, tol=tolerance)\n        )\n",
+    "        import bisect\n        is_observable_eval_time = (\n            times is not None\n            and len(times) > 0\n            and bool(abs(times[min(bisect.bisect_left(times, t), len(times) - 1)] - t) <= tolerance)\n        )\n")], "ONCE-filter")
+M("C14", "twin: emu-sv own-times membership written as an explicit scan", "twin",
+  [(SVI, "        is_observable_eval_time = (\n            times is not None\n            and self._config.is_time_in_evaluation_times(t, times, tol=tolerance)\n        )\n",
+    "        is_observable_eval_time = times is not None and any(\n            abs(t - x) <= tolerance for x in times\n        )\n")])
